@@ -85,7 +85,7 @@ def deps(b, defs, local, depth=0, seen=None):
     if seen is None:
         seen = set()
     out = set()
-    if local in seen or depth > 12:
+    if local in seen or depth > 40:
         return out
     seen.add(local)
     argc = b.mir["argc"]
